@@ -6,6 +6,9 @@ import Signac.Extracted
 import Signac.Proofs.Canon
 import Signac.Proofs.Sorted
 import Signac.Proofs.Md5Shape
+import Signac.Proofs.FloatTokB
+import Signac.Proofs.EncInj
+import Signac.Proofs.BytesInj
 namespace Signac.C01
 open Signac
 
@@ -56,5 +59,113 @@ example : JEquiv (.obj [("b", .arr [.obj [("x", .int 1), ("y", .null)]]), ("a", 
 example : ([("b", JVal.int 2), ("a", JVal.int 1)].Perm [("a", .int 1), ("b", .int 2)])
     ∧ (([("b", JVal.int 2), ("a", JVal.int 1)]).map Prod.fst).Nodup :=
   ⟨List.Perm.swap _ _ _, by decide⟩
+
+/-! ### The converse: state points that differ as JSON values are hashed from different bytes
+
+`FloatsOk fv v` (Signac/Proofs/EncInj.lean) says that every float leaf of `v` carries a
+well-formed float token (`FloatTok`: non-empty, characters of `0123456789+-.eNaIfinty`, at
+least one character that an integer token cannot contain) and that the token determines the
+float's value through `fv`.  The model treats CPython's float `repr` as an opaque token, so
+this is the hypothesis under which "same text, same value" can hold at all. -/
+
+/-- `json.dumps` is injective: the printed text determines the value (key order included). -/
+theorem encChars_injective (fv : String → Int × Nat) {v w : JVal} (hv : FloatsOk fv v)
+    (hw : FloatsOk fv w) (h : encChars v = encChars w) : v = w :=
+  encChars_inj fv hv hw h
+
+/-- The hashed text determines the canonical value: 1 vs 1.0 vs true vs "1", a different list
+    order, an extra key, … all change the text. -/
+theorem canonChars_injective (fv : String → Int × Nat) {v w : JVal} (hv : FloatsOk fv v)
+    (hw : FloatsOk fv w) (h : canonChars v = canonChars w) : canon v = canon w :=
+  encChars_inj fv (canon_floatsOk fv v hv) (canon_floatsOk fv w hw) h
+
+/-- Two state points that differ as JSON values are hashed from different byte strings. -/
+theorem distinct_values_distinct_hashed_bytes (fv : String → Int × Nat) {v w : JVal}
+    (hv : FloatsOk fv v) (hw : FloatsOk fv w) (h : canon v ≠ canon w) :
+    utf8 (canonChars v) ≠ utf8 (canonChars w) :=
+  fun hb => h (canonChars_injective fv hv hw (utf8_inj hb))
+
+/-- Equal ids of different state points are an MD5 collision, nothing else. -/
+theorem equal_ids_collision_or_equal (fv : String → Int × Nat) {v w : JVal}
+    (hv : FloatsOk fv v) (hw : FloatsOk fv w) (h : calcId v = calcId w) :
+    canon v = canon w ∨
+      (utf8 (canonChars v) ≠ utf8 (canonChars w)
+        ∧ md5 (utf8 (canonChars v)) = md5 (utf8 (canonChars w))) := by
+  have hm : md5 (utf8 (canonChars v)) = md5 (utf8 (canonChars w)) :=
+    hexOfBytes_inj _ _ (String.ofList_injective h)
+  by_cases hc : canon v = canon w
+  · exact Or.inl hc
+  · exact Or.inr ⟨distinct_values_distinct_hashed_bytes fv hv hw hc, hm⟩
+
+/- Concrete instances.  `fvDemo` reads the two float tokens used below. -/
+def fvDemo (r : String) : Int × Nat :=
+  if r = "1.0" then (1, 0) else if r = "-2.5" then (-5, 1) else (0, 0)
+
+theorem floatTok_one : FloatTok "1.0" := ⟨by decide, by decide, by decide⟩
+
+/-- {"a": 1}, {"a": 1.0}, {"a": true}, {"a": "1"}: pairwise different hashed bytes
+    (by the theorem; the `decide` lines below re-check the texts by evaluation). -/
+theorem int_float_bool_str_distinct :
+    let i := JVal.obj [("a", .int 1)]
+    let f := JVal.obj [("a", .flt 1 0 "1.0")]
+    let b := JVal.obj [("a", .bool true)]
+    let s := JVal.obj [("a", .str "1")]
+    utf8 (canonChars i) ≠ utf8 (canonChars f) ∧ utf8 (canonChars i) ≠ utf8 (canonChars b) ∧
+    utf8 (canonChars i) ≠ utf8 (canonChars s) ∧ utf8 (canonChars f) ≠ utf8 (canonChars b) ∧
+    utf8 (canonChars f) ≠ utf8 (canonChars s) ∧ utf8 (canonChars b) ≠ utf8 (canonChars s) := by
+  have hf : FloatsOk fvDemo (.obj [("a", .flt 1 0 "1.0")]) := by
+    simp only [FloatsOk, FloatsOkObj, and_true]; exact ⟨floatTok_one, by decide⟩
+  have hi : FloatsOk fvDemo (.obj [("a", .int 1)]) := by simp [FloatsOk, FloatsOkObj]
+  have hb : FloatsOk fvDemo (.obj [("a", .bool true)]) := by simp [FloatsOk, FloatsOkObj]
+  have hs : FloatsOk fvDemo (.obj [("a", .str "1")]) := by simp [FloatsOk, FloatsOkObj]
+  refine ⟨?_, ?_, ?_, ?_, ?_, ?_⟩ <;>
+    (apply distinct_values_distinct_hashed_bytes fvDemo (by assumption) (by assumption)
+     simp [canon, canonObj, insertKV])
+
+example : canonChars (.obj [("a", .int 1)]) = "{\"a\": 1}".toList
+    ∧ canonChars (.obj [("a", .flt 1 0 "1.0")]) = "{\"a\": 1.0}".toList
+    ∧ canonChars (.obj [("a", .bool true)]) = "{\"a\": true}".toList
+    ∧ canonChars (.obj [("a", .str "1")]) = "{\"a\": \"1\"}".toList := by decide
+
+/-- [1, 2] vs [2, 1]: list order matters. -/
+theorem list_order_distinct :
+    utf8 (canonChars (.arr [.int 1, .int 2])) ≠ utf8 (canonChars (.arr [.int 2, .int 1])) := by
+  apply distinct_values_distinct_hashed_bytes fvDemo
+    (by simp [FloatsOk, FloatsOkList]) (by simp [FloatsOk, FloatsOkList])
+  simp [canon, canonList]
+
+/-- {"a": 1} vs {"a": 1, "b": null}: an extra key matters, even with value null. -/
+theorem extra_key_distinct :
+    utf8 (canonChars (.obj [("a", .int 1)]))
+      ≠ utf8 (canonChars (.obj [("a", .int 1), ("b", .null)])) := by
+  apply distinct_values_distinct_hashed_bytes fvDemo
+    (by simp [FloatsOk, FloatsOkObj]) (by simp [FloatsOk, FloatsOkObj])
+  simp [canon, canonObj, insertKV]
+
+example : canonChars (.arr [.int 1, .int 2]) ≠ canonChars (.arr [.int 2, .int 1])
+    ∧ canonChars (.obj [("a", .int 1)]) ≠ canonChars (.obj [("a", .int 1), ("b", .null)]) := by
+  decide
+
+/- non-vacuity of `FloatsOk`: a nested value with float leaves (one of them inside an array
+   inside an object) satisfies it for the concrete `fvDemo`. -/
+example : FloatsOk fvDemo
+    (.obj [("b", .arr [.flt (-5) 1 "-2.5", .obj [("x", .flt 1 0 "1.0"), ("y", .null)]]),
+           ("a", .int 1)]) := by
+  simp only [FloatsOk, FloatsOkObj, FloatsOkList, and_true]
+  exact ⟨⟨⟨by decide, by decide, by decide⟩, by decide⟩, floatTok_one, by decide⟩
+
+/-- The same with the hypothesis in executable form: `floatsTokB` is what the driver evaluates on
+    every value of the correspondence run (`ftok` lines), `fvAgreesB fv` says the repr token
+    determines the float's value.  So for the values the check runs on, equal ids mean equal
+    canonical values or an MD5 collision. -/
+theorem equal_ids_collision_or_equal_checked (fv : String → Int × Nat) {v w : JVal}
+    (hv : floatsTokB v = true ∧ fvAgreesB fv v = true) (hw : floatsTokB w = true ∧ fvAgreesB fv w = true)
+    (h : calcId v = calcId w) :
+    canon v = canon w ∨
+      (utf8 (canonChars v) ≠ utf8 (canonChars w) ∧ md5 (utf8 (canonChars v)) = md5 (utf8 (canonChars w))) :=
+  equal_ids_collision_or_equal fv ((floatsOk_iff fv v).mpr hv) ((floatsOk_iff fv w).mpr hw) h
+
+example : floatsTokB (.obj [("b", .arr [.flt (-5) 1 "-2.5", .obj [("x", .flt 1 0 "1.0")]]), ("a", .int 1)]) = true := by
+  decide
 
 end Signac.C01
